@@ -82,6 +82,20 @@ Theorem C09_confinement_absolute_partial : forall q e sg cfg lead rel lg raw,
 Proof. exact confinement_absolute. Qed.
 Print Assumptions C09_confinement_absolute_partial.
 
+(* for the ten commands read from the source the marker hypothesis is discharged by computation on the generated table *)
+Theorem C09_confinement_absolute_cmd_partial : forall q e n sg cfg lead rel lg raw,
+  find_sig n = Some sg ->
+  rel <> [] -> e_root e = lead ->
+  resolve (e_cwd e) (GP true (lead ++ rel)) = lead ++ rel ->
+  existsb excl_comp lead = false ->
+  pats_clean (cs_ikind sg) (ignore_pats sg cfg) (rooted lead ++ String slash "") rel = true ->
+  any_sub (t_str_contains (tspec_of sg lg)) (rooted lead ++ String slash "") = false ->
+  (cs_cwd_parser sg = false \/ list_eqb (e_cwd e) (e_root e) = true \/ e_cwd_pats e = []) ->
+  file_result q e sg cfg {| f_given := GP true (lead ++ rel); f_lang := lg; f_raw := raw |}
+  = spec_file (e_root_pats e) sg cfg {| s_rel := rel; s_lang := lg; s_raw := raw |}.
+Proof. exact confinement_absolute_cmd. Qed.
+Print Assumptions C09_confinement_absolute_cmd_partial.
+
 (* ... and when the target is spelled relative to the project directory itself (`.`, `src/a.py`), provided no marker
    that begins with "/" occurs in the path inside the project *)
 Theorem C09_confinement_project_relative_partial : forall q e sg cfg rel lg raw,
